@@ -225,6 +225,9 @@ def std_transfer(I, fr, t, c, pth):
                     arg = item if name in ('all', 'any', 'position') else ('byref', item)
                     r = I._call_closure_rw(fr, cl[0], cl[1], [arg], where)
                     if not isinstance(r, Int):
+                        if name == 'find':
+                            # undecided predicate: the result is one of the remaining items or None
+                            return I.fork_values(fr, t, pth, [Opt('some', it_) for it_ in items[k:]] + [Opt('none', TOP)], ('find', where))
                         return False
                     if name == 'all' and not r.v:
                         out = Int(0, 1)
